@@ -196,7 +196,11 @@ func RunBatch(t *testing.T, ch Checker, tier string, batchSeed uint64, from, to 
 		}
 		seed := RunSeed(batchSeed, i)
 		KeepLogs, LastLogs = i%16 == 5, nil
+		evalStart := time.Now()
 		c, o := EvalFresh(t, ch, seed, tier)
+		if d := time.Since(evalStart); d > 20*time.Second && len(br.Notes) < 20 {
+			br.Notes = append(br.Notes, fmt.Sprintf("seed %d: slow evaluation (%.0f s wall)", seed, d.Seconds()))
+		}
 		logsA := LastLogs
 		LastLogs = nil
 		br.Evals++
